@@ -13,4 +13,6 @@ from props import PROPS
 print(' '.join(sorted({m for c in PROPS.values() for m in c['lean_modules']})))")
 (cd lean && lake build PalomaModel driver PalomaModel.Props.Abi $MODS)
 (cd harness && cp /repo/go.sum . 2>/dev/null || true; go test -c -vet=off -tags verif -ldflags '-X github.com/cosmos/cosmos-sdk/version.Version=v2.4.0' -o ../bin/harness.test .)
+# second harness binary for the wall-clock twins of C08 (Go's faketime runtime): built here so that the check finds it in the build cache
+(cd harness && go test -c -vet=off -tags verif,faketime -ldflags '-X github.com/cosmos/cosmos-sdk/version.Version=v2.4.0' -o ../bin/harness_faketime.test .)
 echo setup-ok
